@@ -16,7 +16,9 @@ def run(tier):
     f.out.stage('known-finding canonical cases'); f.known_cases()
     f.out.stage('A model check'); f.model_check(6 if t else 4)
     f.out.stage('A2 inductive step of the session invariants (ViseInd)')
-    vise_ind(f, [('reenter', 2, {0, 1, 2, 3, 6, 8}), ('nav', 1, {0, 3, 6, 8}), ('capacity', 1, {0, 3, 6, 8})] if t else [('reenter', 1, {0, 6, 8})])
+    # (sizes measured on this image, 16 workers, machine busy: reenter/2/3 flags 1.8 M states 57 s; reenter/1/6 flags 1.76 M states 56 s;
+    #  capacity/1/3 flags 0.25 M states 35 s; program nav does not finish in 20 minutes even at depth 1 and is left to ViseMC)
+    vise_ind(f, [('reenter', 2, {0, 6, 8}), ('reenter', 1, {0, 1, 2, 3, 6, 8}), ('capacity', 1, {0, 6, 8})] if t else [('reenter', 1, {0, 6, 8})])
     f.out.stage('B+C model histories on the real engine (exhaustive over each program alphabet + refused inputs)'); f.replay_model(5 if t else 3)
     f.random_env = {'VERIF_ECHO': '1'}      # functions that store the client's input as it is; accepted inputs that are not valid UTF-8
     f.out.stage('C random programs, junk inputs, both modes'); f.random(400 if t else 50, 30 if t else 20, 16, 'LP')
